@@ -72,7 +72,7 @@ APPLY_CTRL = Id(
                                    'numqi.sim.state:_reduce_shape_index_hf0', 'numqi.sim.state:apply_gate'], [st],
     inputs=lambda sh: dict(q=alg.sym_complex('q', (2 ** sh[0],))[0], U=alg.sym_complex('u', (2 ** len(sh[2]),) * 2)[0], n=sh[0], ctrl=sh[1], idx=sh[2]),
     call=_ctrl_call,
-    post=lambda I, r: [('eq_controlled_embedded_operator', r['r'], SS.matvec(SS.ctrl_embed(I['U'], I['ctrl'], I['idx'], I['n']), I['q'])),
+    post=lambda I, r: [('eq_controlled_embedded_operator', r['r'], SS.matvec(SS.ctrl_embed(I['U'], I['ctrl'], I['idx'], I['n']), r['before'])),
                        ('input_state_not_mutated', r['after'], r['before'])],
     sample=lambda rng, sh: dict(q=_rc(rng, 2 ** sh[0]), U=_rc(rng, 2 ** len(sh[2]), 2 ** len(sh[2])), n=sh[0], ctrl=sh[1], idx=sh[2]),
     label=lambda sh: f'n={sh[0]},ctrl={sh[1]},idx={sh[2]}')
